@@ -17,6 +17,7 @@ import (
 	"net/url"
 	"os"
 	"strings"
+	"sync"
 	"time"
 
 	el "github.com/hashicorp/eventlogger"
@@ -131,7 +132,7 @@ func fmtLit(f string) string {
 	return "FBad"
 }
 
-func runCase(c Case) (lit string, obs Obs, nontrivial bool) {
+func runCase(c Case) (ret *retained, obs Obs, nontrivial bool) {
 	gv, mv, ok := jgen.Build(c.Payload)
 	ty := jgen.Unhex(c.Type)
 	tm := c.Time.Time()
@@ -317,18 +318,116 @@ func runCase(c Case) (lit string, obs Obs, nontrivial bool) {
 	for i, b := range calls {
 		callsLit[i] = jgen.Bytes(b)
 	}
-	lit = fmt.Sprintf("CCe %d {| k_cfg := {| k_nil := %s; k_source := %s; k_schema := %s; k_format := %s; k_pred := %d; k_signer := %d; k_tag := %s; k_types := [%s] |};\n"+
+	prefix := fmt.Sprintf("CCe %d {| k_cfg := {| k_nil := %s; k_source := %s; k_schema := %s; k_format := %s; k_pred := %d; k_signer := %d; k_tag := %s; k_types := [%s] |};\n"+
 		"   k_evnil := %s; k_type := %s; k_time := %s; k_payload := {| y_id := %s; y_data := %s |}; k_pre := %s; k_fresh := %s;\n"+
-		"   k_obs := {| b_err := %s; b_out := %d; b_table := %s; b_frame := %s; b_calls := [%s]; b_time_ok := %s |} |}",
+		"   k_obs := {| b_err := %s; b_out := %d; b_table := %s; b_frame := %s; b_calls := [%s]; b_time_ok := %s",
 		c.ID, hc.B(c.NilNode), jgen.OptBytes(srcTok, srcOK), jgen.OptBytes(schTok, schOK), fmtLit(c.Format), c.Pred, c.Signer, jgen.Bytes(tag), strings.Join(typesLit, "; "),
 		hc.B(c.NilEvent), jgen.Bytes(ty), jgen.OptBytes(c.Time.Text(), c.Time.Encodable()), idLit, dataLit, preLit, jgen.Bytes(fresh),
 		hc.B(obs.Err), obs.Out, jgen.TableLit(after, extra), hc.B(obs.Frame), strings.Join(callsLit, "; "), hc.B(obs.TimeOK))
+	// keep the event together with a private copy of the document stored right now: it is re-read after later Process calls
+	// on other events (the stored document must stay what was stored)
+	ret = &retained{id: c.ID, prefix: prefix, ev: e, key: "cloudevents-json"}
+	if c.Format == "cloudevents-text" {
+		ret.key = "cloudevents-text"
+	}
+	if e != nil {
+		if v, has := e.Format(ret.key); has {
+			ret.has = true
+			ret.copy = append([]byte{}, v...)
+		}
+	}
 	nontrivial = !c.NilNode && !c.NilEvent && srcOK && len(srcTok) > 0 && fmtLit(c.Format) != "FBad" && !(schOK && len(schTok) == 0)
 	return
 }
 
+// ---------------------------------------------------------------- retention: stored documents must not change afterwards
+type retained struct {
+	id       int
+	prefix   string // the case literal up to b_time_ok (complete literal when whole is set)
+	whole    bool
+	ev       *el.Event
+	key      string
+	copy     []byte // private copy of Format(key) taken right after Process
+	has      bool
+	since    int // Process calls on other events since
+	later    int // ... after which a change was first seen (0: none)
+	final    []byte
+	finalHas bool
+}
+
+func (r *retained) recheck(calls int) {
+	if r.whole || r.ev == nil {
+		return
+	}
+	r.since += calls
+	if r.later != 0 {
+		return
+	}
+	v, has := r.ev.Format(r.key)
+	if has != r.has || !bytes.Equal(v, r.copy) {
+		r.later = r.since
+		r.final = append([]byte{}, v...)
+		r.finalHas = has
+	}
+}
+func (r *retained) lit() string {
+	if r.whole {
+		return r.prefix
+	}
+	if r.later == 0 {
+		r.final, r.finalHas = r.copy, r.has
+	}
+	return r.prefix + fmt.Sprintf("; b_final := %s; b_later := %d |} |}", jgen.OptBytes(r.final, r.finalHas), r.later)
+}
+
+var churnPayloads = []interface{}{"", "x", strings.Repeat("z", 700), map[string]interface{}{"k": []interface{}{1, "two", nil}}, strings.Repeat("<&>\n", 40), 12345}
+var churnSource, _ = url.Parse("https://churn.example")
+
+// churnCall formats one more, unrelated event with a cloudevents formatter (json / text, signed / unsigned)
+func churnCall(i int) {
+	e := &el.Event{Type: "churn", CreatedAt: time.Unix(int64(i), 0).UTC(), Payload: churnPayloads[i%len(churnPayloads)]}
+	n := &ce.FormatterFilter{Source: churnSource}
+	if i%2 == 1 {
+		n.Format = ce.FormatText
+	}
+	if i%3 == 0 {
+		n.SignEventTypes = []string{"churn"}
+		n.Signer = func(_ context.Context, b []byte) (string, error) { return "churn-signature", nil }
+	}
+	func() {
+		defer func() { _ = recover() }()
+		_, _ = n.Process(context.Background(), e)
+	}()
+}
+
+func settle(batch []*retained) {
+	for i := 0; i < 8; i++ {
+		churnCall(i)
+		for _, r := range batch {
+			r.recheck(1)
+		}
+	}
+	var wg sync.WaitGroup
+	const ng, per = 4, 8
+	for g := 0; g < ng; g++ {
+		wg.Add(1)
+		go func(g int) {
+			defer wg.Done()
+			for i := 0; i < per; i++ {
+				churnCall(100*g + i)
+			}
+		}(g)
+	}
+	wg.Wait()
+	for _, r := range batch {
+		r.recheck(ng * per)
+	}
+}
+
 // ---------------------------------------------------------------- emitter
 type emitter struct {
+	batch   []*retained
+	mutated int
 	cf      *hc.CaseFile
 	side    *os.File
 	stats   map[string]int
@@ -343,14 +442,20 @@ func (em *emitter) emit(c Case) {
 	c.ID = em.next
 	em.next++
 	js, _ := json.Marshal(c)
-	lit, obs, nt := runCase(c)
+	ret, obs, nt := runCase(c)
 	if obs.Panic != "" {
 		em.panics = append(em.panics, fmt.Sprintf("case %d: %s", c.ID, obs.Panic))
 	}
 	if obs.Fresh != "" {
 		em.fresh = append(em.fresh, obs.Fresh)
 	}
-	em.cf.Add(lit)
+	for _, r := range em.batch { // this was one more Process call for every event retained so far
+		r.recheck(1)
+	}
+	em.batch = append(em.batch, ret)
+	if len(em.batch) >= batchSize {
+		em.flush()
+	}
 	em.stats["payload:"+c.PKind]++
 	em.stats["format:"+fmtLit(c.Format)]++
 	em.stats[fmt.Sprintf("signer:%d", c.Signer)]++
@@ -387,7 +492,22 @@ func (em *emitter) emit(c Case) {
 	em.stats["cases"]++
 }
 
+const batchSize = 40
+
+// flush closes a batch: further Process calls, the re-reads, then the case literals are written
+func (em *emitter) flush() {
+	settle(em.batch)
+	for _, r := range em.batch {
+		if r.later != 0 {
+			em.mutated++
+		}
+		em.cf.Add(r.lit())
+	}
+	em.batch = nil
+}
+
 func (em *emitter) emitFresh() {
+	em.flush()
 	id := em.next
 	em.next++
 	parts := make([]string, len(em.fresh))
@@ -584,7 +704,14 @@ func main() {
 			fmt.Println("this record has no single case to re-run (fresh-id summary):", string(data))
 			return
 		}
-		lit, obs, _ := runCase(wrapper.Case)
+		ret, obs, _ := runCase(wrapper.Case)
+		settle([]*retained{ret})
+		lit := ret.lit()
+		if ret.later != 0 {
+			defer fmt.Printf("STORED DOCUMENT CHANGED after %d later Process calls on other events: %s (present=%v) is now %q\n", ret.later, ret.key, ret.finalHas, ret.final)
+		} else {
+			defer fmt.Printf("stored document unchanged after %d later Process calls on other events\n", ret.since)
+		}
 		js, _ := json.MarshalIndent(obs, "", " ")
 		fmt.Printf("observation: %s\n", js)
 		for k, v := range obs.Table {
@@ -622,6 +749,7 @@ func main() {
 		}
 	}
 	em.emitFresh()
+	em.stats["stored-value-changed-later"] = em.mutated
 	cf.Close()
 	side.Close()
 	summary := map[string]interface{}{"stats": em.stats, "files": cf.Files, "cases": cf.Total, "distinct_nontrivial": em.nontriv,
